@@ -22,8 +22,30 @@ def weight_one_qubits(gens, n):
 
 
 def judge_unary(gens, n):
-    """expand() and is_qubit_entangled() for one presentation."""
-    st = lib_stab(gens, n)
+    """expand() and is_qubit_entangled() for one presentation (int8 matrices; the same generators as bool and
+    int64 matrices and as strings must give the same answers)."""
+    from .. import impl
+    msgs = judge_unary_on(lib_stab(gens, n), gens, n)
+    if not msgs:
+        R, S, ph = impl.gens_to_matrices(gens, n)
+        prod = weight_one_qubits(gens, n)
+        for label, st in (("bool matrices", impl.Stabilizer((R.astype(bool), S.astype(bool), ph.astype(bool)))),
+                          ("int64 matrices", impl.Stabilizer((R.astype(np.int64), S.astype(np.int64)))),
+                          ("strings", impl.Stabilizer(M.gens_str(gens, n)))):
+            for q in range(n):
+                got = st.is_qubit_entangled(q)
+                if bool(got) != (q not in prod):
+                    msgs.append("is_qubit_entangled(%d) = %r for %s given as %s; qubit %d %s a product factor"
+                                % (q, got, M.gens_str(gens, n), label, q, "is" if q in prod else "is not"))
+                    break
+            X, Z = st.expand()
+            cols = {sum((int(X[q, c]) & 1) << q for q in range(n)) | (sum((int(Z[q, c]) & 1) << q for q in range(n)) << n) for c in range(1 << n)}
+            if cols != M.span_unsigned(gens, n):
+                msgs.append("expand() of %s given as %s does not list the group" % (M.gens_str(gens, n), label))
+    return msgs
+
+
+def judge_unary_on(st, gens, n):
     msgs = []
     X, Z = st.expand()
     X, Z = np.asarray(X), np.asarray(Z)
